@@ -267,6 +267,34 @@ def _corridor_cases(tier, rng, kind):
             rs = [[-r[2], r[1], -r[0], r[3]] for r in rs]
             s_, e_ = [-s_[0], s_[1]], [-e_[0], e_[1]]
         yield {"kind": kind, "rects": rs, "s": s_, "e": e_, "den": 1}
+    # end points ON a line through two corners of the corridor (where the triangulation's diagonals run), on a tenth-unit grid
+    # and translated at random: exactly on the diagonal in exact arithmetic, a rounding error beside it in float64 - the
+    # point can then be inside BOTH triangles without being collinear with their common side (the unchanged library took the
+    # path around the far corner of the last rectangle on 1 of 523 709 thorough cases before repair c19-diag, section 17.5)
+    for _ in range(6000 if tier == "quick" else 60000):
+        k = rng.choice([2, 2, 3])
+        rs, top = [], 0
+        L, R = sorted(rng.sample(range(0, 21), 2))
+        for i in range(k):
+            h = rng.randint(2, 10)
+            rs.append([L * 10, top * 10, R * 10, (top + h) * 10])
+            top += h
+            for _try in range(50):
+                L2, R2 = sorted(rng.sample(range(0, 21), 2))
+                if max(L, L2) < min(R, R2):
+                    L, R = L2, R2
+                    break
+        corners = sorted({(x, y) for r in rs for x in (r[0], r[2]) for y in (r[1], r[3])})
+        last = rs[-1]
+        a, b = rng.sample(corners, 2)
+        t = rng.randint(1, 9)
+        ex, ey = a[0] + (b[0] - a[0]) * t // 10, a[1] + (b[1] - a[1]) * t // 10
+        if (b[0] - a[0]) * t % 10 or (b[1] - a[1]) * t % 10 or not (last[0] <= ex <= last[2] and last[1] <= ey <= last[3]):
+            continue
+        sx, sy = rng.randint(rs[0][0], rs[0][2]), rng.randint(rs[0][1], rs[0][3])
+        dx, dy = rng.choice([0, -10 * rng.randint(1, 30), 10 * rng.randint(1, 30), -a[0]]), rng.choice([0, -10 * rng.randint(1, 30), -a[1], 10 * rng.randint(1, 9)])
+        yield {"kind": kind, "rects": [[r[0] + dx, r[1] + dy, r[2] + dx, r[3] + dy] for r in rs], "s": [sx + dx, sy + dy], "e": [ex + dx, ey + dy], "den": 10}
+    yield {"kind": kind, "rects": [[0, -1000, 1000, 0], [-400, 0, 1500, 500]], "s": [385, -663], "e": [1073, 73], "den": 10}
     # random larger corridors (k up to 12), integer corners up to 40
     for _ in range(1500 if tier == "quick" else 25000):
         k = rng.randint(2, 12)
